@@ -43,6 +43,42 @@ Example C15_nonvacuous :
   prop_C15 demo_entries [(1, 0); (0, 4)] = false.
 Proof. exact demo_nonvacuous. Qed.
 
+(* ---- pipeline level (api.validator.go): "so each offending method receives a warning" ---- *)
+
+(* the boolean oracle about warnings, evaluated on the warnings pipeline.Validate() attaches, is the
+   statement "an entry carries a route-conflict warning iff it overlaps with another same-verb entry" *)
+Theorem C15_warned_oracle_spec : forall es w, prop_C15_warned es w = true <-> P_C15_warned es w.
+Proof. exact prop_C15_warned_spec. Qed.
+
+(* warning both ends of every conflict (what the validator does) warns exactly the offending entries,
+   for every route list *)
+Theorem C15_warned_exact : forall es, P_C15_warned es (warned es).
+Proof. exact warned_P. Qed.
+
+(* for every project (controllers under any prefixes): the methods the validator warns are exactly the
+   methods whose MOUNTED route (controller route ++ method route, what the routers register) overlaps
+   with another same-verb mounted route *)
+Theorem C15_pipeline : forall ms, prop_C15_pipeline ms (warned_methods ms) = true.
+Proof. exact pipeline_full. Qed.
+
+Theorem C15_pipeline_P : forall ms, P_C15_warned (map mounted_entry ms) (warned_methods ms).
+Proof. exact pipeline_full_P. Qed.
+
+(* non-vacuity with different prefixes: /users/{id} vs /posts/{id} are not warned, /a + /b vs "" + /a/b
+   are; the oracle rejects warning sets that are too small or too large *)
+Example C15_pipeline_nonvacuous :
+  warned_methods demo_apart = [] /\
+  prop_C15_pipeline demo_apart [] = true /\
+  prop_C15_pipeline demo_apart [0; 1] = false /\
+  warned_methods demo_across = [1; 0] /\
+  prop_C15_pipeline demo_across [1; 0] = true /\
+  prop_C15_pipeline demo_across [] = false /\
+  warned_methods demo_project = [1; 0; 3; 4; 2; 7; 2; 7] /\
+  prop_C15_pipeline demo_project (warned_methods demo_project) = true /\
+  prop_C15_pipeline demo_project [0; 1; 3; 4] = false /\
+  prop_C15_pipeline demo_project [0; 1; 2; 3; 4; 6; 7] = false.
+Proof. exact demo_pipeline_nonvacuous. Qed.
+
 Print Assumptions C15_overlap_spec.
 Print Assumptions C15_oracle_spec.
 Print Assumptions C15_sound_complete.
@@ -50,3 +86,8 @@ Print Assumptions C15_holds.
 Print Assumptions C15_flagged_spec.
 Print Assumptions C15_perm.
 Print Assumptions C15_nonvacuous.
+Print Assumptions C15_warned_oracle_spec.
+Print Assumptions C15_warned_exact.
+Print Assumptions C15_pipeline.
+Print Assumptions C15_pipeline_P.
+Print Assumptions C15_pipeline_nonvacuous.
